@@ -1,13 +1,9 @@
-(* GENERATED on every run by tools/rs2v.py from /repo/src/connection_options.rs, /repo/src/heartbeats.rs, /repo/src/io_loop/channel_handle.rs - do not edit.
+(* GENERATED on every run by tools/rs2v.py from /repo/src/connection_options.rs - do not edit.
    The subset of Rust it accepts and the meaning it gives to it are stated in that file. *)
 From Coq Require Import String.
-From Amq Require Import Lib.Base Gen.Consts.
+From Amq Require Import Lib.Base Lib.RsResult Gen.Consts.
 Open Scope string_scope.
 Open Scope N_scope.
-
-Inductive rs_result :=
-| RsOk (name : string) (fields : list (string * N))
-| RsErr (name : string) (fields : list (string * N)).
 
 
 (* ---- /repo/src/connection_options.rs :: make_tune_ok ---- *)
@@ -20,13 +16,3 @@ Definition gen_make_tune_ok_promote_0_u32 (val : N) : N :=
 (* parameters (the fields the function reads, sorted): self.channel_max, self.frame_max, self.heartbeat, tune.channel_max, tune.frame_max, tune.heartbeat *)
 Definition gen_make_tune_ok (self_channel_max : N) (self_frame_max : N) (self_heartbeat : N) (tune_channel_max : N) (tune_frame_max : N) (tune_heartbeat : N) : rs_result :=
   (let chan_max0 := (gen_make_tune_ok_promote_0_u16 tune_channel_max) in (let chan_max1 := (gen_make_tune_ok_promote_0_u16 self_channel_max) in (let frame_max0 := (gen_make_tune_ok_promote_0_u32 tune_frame_max) in (let frame_max1 := (gen_make_tune_ok_promote_0_u32 self_frame_max) in (let channel_max := (N.min chan_max0 chan_max1) in (let frame_max := (N.min frame_max0 frame_max1) in (let heartbeat := (N.min tune_heartbeat self_heartbeat) in (if (frame_max <? c_frame_min_size) then (RsErr "FrameMaxTooSmall" [("min", c_frame_min_size); ("requested", frame_max)]) else (RsOk "TuneOk" [("channel_max", channel_max); ("frame_max", frame_max); ("heartbeat", heartbeat)]))))))))).
-
-(* ---- /repo/src/heartbeats.rs :: Heartbeat.fire ---- *)
-(* parameters (the fields the function reads, sorted): self.interval, self.last_elapsed *)
-Definition gen_Heartbeat_fire (self_interval : N) (self_last_elapsed : N) : rs_result :=
-  (let elapsed := self_last_elapsed in (let '(when, state) := (if (self_interval <=? (elapsed + 5)) then (self_interval, 1) else ((self_interval - elapsed), 0)) in (RsOk "Heartbeat_fire" [("result", state); ("timer.set_timeout#0", when)]))).
-
-(* ---- /repo/src/io_loop/channel_handle.rs :: Channel0Handle.new ---- *)
-(* parameters (the fields the function reads, sorted):  *)
-Definition gen_Channel0Handle_new (frame_max : N) : rs_result :=
-  (let frame_max := (if (frame_max =? 0) then 18446744073709551615 else frame_max) in (let frame_max := (frame_max - c_frame_overhead) in (RsOk "Channel0Handle" [("frame_max", frame_max)]))).
